@@ -20,10 +20,10 @@ const T0: u64 = 1_700_000_000_000_000_000;
 const MS: u64 = 1_000_000;
 const SLACK: u64 = 3 * 10 * MS + MS;
 
-pub const KINDS: [&str; 6] = ["usleep(1ms)", "usleep(10ms)", "nanosleep(25ms)", "sleep(1s)", "read(peer writes at 15ms)", "compute(5 yields)"];
+pub const KINDS: [&str; 8] = ["usleep(1ms)", "usleep(10ms)", "nanosleep(25ms)", "sleep(1s)", "read(peer writes at 15ms)", "compute(5 yields)", "cooperative delay(2s)", "write(one byte to the first reader's socket)"];
 
 fn dur_of(k: usize) -> u64 {
-    [MS, 10 * MS, 25 * MS, 1000 * MS, 15 * MS, 0][k]
+    [MS, 10 * MS, 25 * MS, 1000 * MS, 15 * MS, 0, 2000 * MS, 0][k]
 }
 
 #[derive(Clone, Debug)]
@@ -49,6 +49,7 @@ pub fn exec(c: &Case, em: &mut Emitter) {
     // (start, end, extra) per task
     let out: Arc<Mutex<Vec<Option<(u64, u64, i64)>>>> = Arc::new(Mutex::new(vec![None; n]));
     let mut peers: Vec<(usize, i32)> = Vec::new();
+    let mut first_reader_fd = -1;
     for (i, k) in c.tasks.iter().enumerate() {
         let (o, k) = (out.clone(), *k);
         let mut rfd = -1;
@@ -56,7 +57,20 @@ pub fn exec(c: &Case, em: &mut Emitter) {
             let mut sv = [0; 2];
             assert_eq!(0, unsafe { libc::socketpair(libc::AF_UNIX, libc::SOCK_STREAM, 0, sv.as_mut_ptr()) });
             rfd = sv[0];
+            if first_reader_fd < 0 {
+                first_reader_fd = rfd;
+            }
             peers.push((i, sv[1]));
+        }
+        if KINDS[k].starts_with("write") {
+            // the socket a reader of this case is blocked on (tasks are sorted by kind, readers come
+            // first); a socket of its own if the case has no reader
+            rfd = first_reader_fd;
+            if rfd < 0 {
+                let mut sv = [0; 2];
+                assert_eq!(0, unsafe { libc::socketpair(libc::AF_UNIX, libc::SOCK_STREAM, 0, sv.as_mut_ptr()) });
+                rfd = sv[0];
+            }
         }
         let _ = lp
             .pool()
@@ -75,11 +89,16 @@ pub fn exec(c: &Case, em: &mut Emitter) {
                         let mut b = [0u8; 1];
                         extra = sc::read(None, rfd, b.as_mut_ptr().cast(), 1) as i64;
                     }
-                    _ => {
+                    5 => {
                         for _ in 0..5 {
                             extra += 1;
                             SchedulableSuspender::current().expect("suspender").suspend();
                         }
+                    }
+                    6 => SchedulableSuspender::current().expect("suspender").delay(Duration::from_secs(2)),
+                    _ => {
+                        let b = [5u8; 1];
+                        extra = sc::write(None, rfd, b.as_ptr().cast(), 1) as i64;
                     }
                 }
                 o.lock().unwrap()[i] = Some((t0, now(), extra));
@@ -135,6 +154,10 @@ pub fn judge(c: &Case, res: &ChildResult, rep: &mut Report) {
         let (s, en) = (t["start"].as_u64().unwrap(), t["end"].as_u64().unwrap());
         makespan = makespan.max(en);
         let d = dur_of(c.tasks[i]);
+        if kind.starts_with("write") && t["extra"].as_i64() != Some(1) {
+            rep.violation("c15.mix/socket-write-returns-one/-", format!("{}: the hooked write returned {}", c.to_json(), t["extra"]), replay());
+            return;
+        }
         if kind.starts_with("read") {
             if t["extra"].as_i64() != Some(1) {
                 rep.violation("c15.mix/socket-wait-returns-the-byte/-", format!("{}: the hooked read returned {}", c.to_json(), t["extra"]), replay());
